@@ -33,6 +33,11 @@ CHECKS.update({
         "text": "props/C05.v proves, for any world, phase, strategy and ANY function modelling third-party activity between the uncached read and the write, that teardown only issues deletes of objects controlled in the inspected version carrying exactly its UID/resourceVersion (effective only on that version) or the release patch (owner reference + cache label only); objects owned by others or unlisted are unchanged. The real TeardownPhase is run on the exhaustive ownership x preflight x interference table on a server that enforces preconditions.",
         "note": _PHASE_NOTE + " The orphan-propagation clause is decided at the ObjectSet level (Teardown short-circuit).",
     },
+    "C12": {
+        "technique": "Coq model of dynamiccache.Cache with theorems over all operation sequences (per-kind invariants by induction) under adversarial informer start/registration/delete failures; differential correspondence against the real Cache wired to a scripted informer map, monitor proved sound; -race runs for the concurrency clause",
+        "text": "Informer-iff-owner, handlers-complete, idempotent Watch, exact Free and failing reads are stated over all Watch/Free/Get/List/OwnersForGKV sequences with adversarial failures and arbitrary map-iteration order (props/C12.v). For the code before fix 95ce509 the first two are refuted (witness kept); for the repaired code they are proved in full. The real Cache is run on a corpus, all sequences up to length 3 (judged in Coq), all of length 4 (quick) / 5 (thorough) over 2 owners x 2 kinds x outcomes plus 3-kind/3-owner variants, random sequences up to length 40, and concurrent callers under the race detector.",
+        "note": "Trusted: Coq kernel + vm_compute; for the long sweeps extraction of C12Corr.judge (ExtrOcamlBasic only, no Extract Constant/Inductive directives) + ocamlopt + harness/ocaml/c12_driver.ml, cross-checked against vm_compute each run; Go harness (scripted informer map); Python driver. Mutex serialisation is runtime behaviour: partial, supported by -race runs only. informerMap.Delete failures excuse the affected kind.",
+    },
     "C13": {
         "technique": "Coq theorems about the object collector (permutation invariance, conservation, order, stripping, labels) for all file lists; template stage as a fold over arbitrary iteration order; function-table purity sweep regenerated from the code; differential correspondence of the real render pipeline with repeated renders",
         "text": "props/C13.v proves permutation invariance (map order cannot matter), conservation (multiset equality), manifest phase order, path-then-document order, control-annotation stripping and package labels for all inputs; generated packages are rendered 20/50 times each through the real pipeline and judged in Coq; the template function table is dumped from the code and swept against the impure names. Three order-dependence defects were found and fixed in /repo (fix: commits 10a6940, 514b770).",
